@@ -1,4 +1,4 @@
-SPECIFICATION FSpec
+SPECIFICATION GSpec
 CONSTANTS
   Repos = {"foo", "foo/a", "foo/b", "fooey"}
   Tags = {"t1", "t2"}
@@ -7,17 +7,15 @@ CONSTANTS
   ManIds = {}
   Cat <- FCat
   UploadIds = {"u1", "u2"}
-  ImmChoices = {FALSE, TRUE}
+  ImmChoices = {FALSE}
   BlockSize = 8
   Pos <- FPos
   Prefix = "foo"
   Chars <- MCChars
   MCKinds = {"sub"}
   ErrIds = {}
-  MaxSteps = 2
-  HostileSteps = 2
-  AllScopes = TRUE
-INVARIANTS FTypeOK
-PROPERTIES Confined EqualsRestriction ListingExact ScopesRewritten
-VIEW FView
+  MaxSteps = 1
+  HostileSteps = 1
+  AllScopes = FALSE
+  GenWhat = {"sublist"}
 CHECK_DEADLOCK FALSE
